@@ -175,3 +175,15 @@ Print Assumptions C11_io_control.
 
 (* every clause of C11 now has a theorem for every padding-aware service; the correspondence (every pad length 0..2*rs+1, four
    settings) ties them to the code. *)
+
+(* ---- the code is the rule (regenerated each run): read_memory_by_address of 2 bytes executed on a positive response carrying any 1..6 data
+   bytes (tools/symtrans.py, Gen/Fn_More.v): longer data is accepted only as zero padding, and only when tolerate_zero_padding is on ---- *)
+From UDS Require Import Gen.Fn_More Model.Svc_Memory Proofs.Tie_more.
+Theorem C11_code_read_memory_tolerant : forall cfg d r, tol_pad cfg = true -> d <> [] -> (List.length d < 7)%nat -> p_data r = d ->
+  fn_read_memory_2_tolerant d = rmba_interpret cfg 2 r.
+Proof. exact tie_read_memory_2_tolerant. Qed.
+Print Assumptions C11_code_read_memory_tolerant.
+Theorem C11_code_read_memory_strict : forall cfg d r, tol_pad cfg = false -> d <> [] -> (List.length d < 7)%nat -> p_data r = d ->
+  fn_read_memory_2_strict d = rmba_interpret cfg 2 r.
+Proof. exact tie_read_memory_2_strict. Qed.
+Print Assumptions C11_code_read_memory_strict.
